@@ -65,8 +65,10 @@ Definition al_set (m : list (nat * nat)) (k a : nat) : list (nat * nat) := (k, a
 (* ------------------------------------------------------------------------------------------ *)
 Section GM.
   Variables W Inp Act Cont Rec : Type.
-  Variable init : W -> Inp -> Cont.                     (* WAF.newTransaction: every observable field
-                                                           is reassigned, whatever the recycled object held (C05) *)
+  Variable init : W -> Inp -> Cont -> Cont.             (* WAF.newTransaction applied to the object Get hands out (last argument: what the
+                                                           recycled - or brand-new - object holds). That every observable field
+                                                           is reassigned whatever it held is a HYPOTHESIS of the theorems (init_reset),
+                                                           discharged for the settings machine st_* below; see also C05 *)
   Variable eval : W -> Inp -> Act -> Cont -> W * Cont.   (* one evaluation action on the transaction's own object *)
   Variable render : Cont -> Rec.                        (* the audit record of the transaction *)
 
@@ -95,11 +97,11 @@ Section GM.
     | TNew :: pc =>
       match nth_error (s_pool s) ch with
       | Some o =>
-        (mk_gm_sh (s_waf s) (gm_upd (s_objs s) o (init (s_waf s) (l_inp l))) (s_next s)
+        (mk_gm_sh (s_waf s) (gm_upd (s_objs s) o (init (s_waf s) (l_inp l) (s_objs s o))) (s_next s)
                   (cremove_nth (s_pool s) ch) (s_log s),
          mk_gm_lo (l_inp l) pc (Some o) (l_out l))
       | None =>
-        (mk_gm_sh (s_waf s) (gm_upd (s_objs s) (s_next s) (init (s_waf s) (l_inp l))) (S (s_next s))
+        (mk_gm_sh (s_waf s) (gm_upd (s_objs s) (s_next s) (init (s_waf s) (l_inp l) (s_objs s (s_next s)))) (S (s_next s))
                   (s_pool s) (s_log s),
          mk_gm_lo (l_inp l) pc (Some (s_next s)) (l_out l))
       end
@@ -265,7 +267,8 @@ Definition cc_eval (clipped : bool) (w : cc_waf) (inp : cc_inp) (a : cc_act) (c 
     (w, mk_cc_cont (lc_arrays c) (lc_cur c) (lc_matched c ++ cc_select (cw_needle w) excs (in_args inp)))
   end.
 
-Definition cc_init (w : cc_waf) (inp : cc_inp) : cc_cont := mk_cc_cont [] cc_empty_slice [].
+Definition cc_new : cc_cont := mk_cc_cont [] cc_empty_slice [].
+Definition cc_init (w : cc_waf) (inp : cc_inp) (old : cc_cont) : cc_cont := cc_new.
 Definition cc_render (c : cc_cont) : list (bytes * bytes) := lc_matched c.
 
 (* the actions doEvaluate performs for one rule: per variable, copy, merge every exclusion, read *)
@@ -289,8 +292,49 @@ Definition cc_waf_of (excs : list bytes) (needle : bytes) : cc_waf :=
 (* the outcome of a transaction run alone on a fresh WAF: the matched (key, value) pairs *)
 Definition cc_solo_outcome (clipped : bool) (w : cc_waf) (inp : cc_inp) : list (bytes * bytes) :=
   let l := cc_tx w inp in
-  let '(s, l') := gm_solo cc_init (cc_eval clipped) cc_render (length (l_pc l)) (gm_sh0 w (cc_init w inp)) l in
+  let '(s, l') := gm_solo cc_init (cc_eval clipped) cc_render (length (l_pc l)) (gm_sh0 w cc_new) l in
   match l_out l' with Some c => lc_matched c | None => [] end.
+
+(* ------------------------------------------------------------------------------------------ *)
+(* 2b. per-transaction settings on a RECYCLED object                                            *)
+(* ------------------------------------------------------------------------------------------ *)
+(* waf.go newTransaction: the Transaction carries copies of WAF-wide settings "that may be
+   overwritten by the ctl action" (RequestBodyLimit, ResponseBodyLimit, RuleEngine, RequestBodyAccess,
+   ResponseBodyAccess, ForceRequestBodyVariable, ForceResponseBodyVariable, AuditEngine,
+   AuditLogParts, ruleRemoveByID, ruleRemoveTargetByID, Skip, ...).  A setting is a number; st_vals is
+   the vector of the transaction object.  newTransaction re-copies setting i from the WAF on EVERY call
+   when mask[i] = true, and only when the object is brand new (the `if tx.requestBodyBuffer == nil`
+   block) when mask[i] = false.  ctl writes a setting (SSet / SInc for the append-like ones); SObs
+   records an outcome that depends on it (a body of x bytes against a limit, a rule firing against an
+   engine mode...). *)
+Record st_cont := mk_st { st_used : bool; st_vals : list nat; st_out : list bool }.
+Inductive st_act := SSet (i v : nat) | SInc (i : nat) | SObs (i x : nat).
+
+Fixpoint st_merge (mask : list bool) (used : bool) (w old : list nat) : list nat :=
+  match w with
+  | [] => []
+  | wv :: w' => (if hd true mask || negb used then wv else hd wv old) :: st_merge (tl mask) used w' (tl old)
+  end.
+
+Definition st_init (mask : list bool) (w : list nat) (inp : unit) (old : st_cont) : st_cont :=
+  mk_st true (st_merge mask (st_used old) w (st_vals old)) [].
+
+Definition st_eval (w : list nat) (inp : unit) (a : st_act) (c : st_cont) : list nat * st_cont :=
+  match a with
+  | SSet i v => (w, mk_st (st_used c) (cset_nth (st_vals c) i v) (st_out c))
+  | SInc i => (w, mk_st (st_used c) (cset_nth (st_vals c) i (S (nth i (st_vals c) 0))) (st_out c))
+  | SObs i x => (w, mk_st (st_used c) (st_vals c) (st_out c ++ [x <=? nth i (st_vals c) 0]))
+  end.
+
+Definition st_render (c : st_cont) : list bool := st_out c.
+Definition st_brand_new : st_cont := mk_st false [] [].
+Definition st_tx (acts : list st_act) : gm_lo unit st_act st_cont := gm_start tt acts.
+
+(* what a transaction run ALONE on a WAF with settings w sees: the settings right after
+   newTransaction, and after its ctl actions *)
+Definition st_alone (w : list nat) (acts : list st_act) : list nat * list nat :=
+  let c0 := st_init (map (fun _ => true) w) w tt st_brand_new in
+  (st_vals c0, st_vals (fold_left (fun c a => snd (st_eval w tt a c)) acts c0)).
 
 (* ------------------------------------------------------------------------------------------ *)
 (* 3. the transformation-id intern table                                                        *)
